@@ -1,11 +1,13 @@
 \* C20 negative config: Content-Length not updated after the rewrite: TLC must reject LengthMatchesBody.
 CONSTANTS
   UnsupportedRule = "pass"
+  HeadRule = "pass"
+  CtRule = "caseinsensitive"
   ParseRule = "scripting"
   CspRule = "policylist"
   LengthRule = "forget"
   EmitCases = FALSE
 INIT Init
 NEXT Next
-INVARIANTS TypeOK PassThroughIsIdentity HtmlGetsExactlyOneScript DocumentOnlyAppendedTo LengthMatchesBody EncodingHeaderDescribesBody
+INVARIANTS TypeOK PassThroughIsIdentity HtmlGetsExactlyOneScript DocumentOnlyAppendedTo LengthMatchesBody EncodingHeaderDescribesBody HeadIsUntouched
 CHECK_DEADLOCK FALSE
